@@ -73,25 +73,40 @@ class Core:
     """one generated Lean file: a set of methods reachable from each other"""
 
     def __init__(self, repo, name, sources, ignore=(), effects=None, observers=(), pure=None, records=None, links=None,
-                 consts=None, attr_effects=(), doc=""):
+                 consts=None, attr_effects=(), doc="", heap=False, opaque=None, oracles=None, ignore_targets=(), ignore_calls=()):
         self.repo = repo
         self.name = name
         self.sources = sources  # list of (relative file, class name, [method names])
         self.ignore = [re.compile(p) for p in ignore]
         self.effects = effects or {}
         self.observers = set(observers)
-        self.pure = pure or {}
+        # builtins every core may use, then the core's own prelude functions
+        self.pure = dict({"bool": "Py.bool_", "len": "Py.len", "max": "Py.max", "min": "Py.min"}, **(pure or {}))
         self.records = records or {}  # (class, method) -> set of record params
         self.links = links or {}  # (class, "self._ecm") -> class
         self.consts = consts or {}  # dotted text -> python constant
         self.attr_effects = [re.compile(p) for p in attr_effects]
         self.doc = doc
+        # heap mode: the environment is threaded as state (attribute writes are visible to later reads); `opaque` calls go to the
+        # outside world and may change it, `oracles` are questions to the world, assignments to `ignore_targets` are dropped
+        self.heap = heap
+        self.opaque = opaque or {}
+        self.oracles = oracles or {}
+        self.ignore_targets = [re.compile(p) for p in ignore_targets]
+        # values the core's configuration leaves out (timers): an assignment whose right-hand side calls one of these is dropped
+        # and its target name is tainted; assignments computed from tainted names are dropped too; any other use is refused
+        self.ignore_calls = [re.compile(p) for p in ignore_calls]
+        self.P = "Py.H." if heap else "Py."          # statement combinators
+        self.EV = " env" if heap else ""             # the environment argument of the combinators
+        self.XE = "ext env" if heap else "env"       # what a translated function gets first
         self.methods = {}  # (class, method) -> ast.FunctionDef
         self.srcfile = {}
         self.emitted = {}  # lean name -> text
         self.order = []
         self.effectful = {}
         self.jp = 0
+        self.written = set()   # attribute paths written (pure-environment mode)
+        self.read = set()      # attribute paths read
 
     # ---------------------------------------------------------------- loading
     def load(self):
@@ -151,17 +166,31 @@ class Core:
         for node in ast.walk(self.methods[key]):
             if isinstance(node, ast.Call):
                 d = dotted(node.func)
-                if d is not None and d in self.effects:
+                if d is not None and (d in self.effects or d in self.opaque):
                     res = True
                 tgt = self.resolve_call(cls, node)
                 if tgt is not None and self.is_effectful(tgt[0], tgt[1], seen):
                     res = True
-            elif isinstance(node, (ast.Assign,)):
-                for t in node.targets:
-                    if isinstance(t, ast.Attribute):
+            elif isinstance(node, (ast.Assign, ast.AugAssign)):
+                for t in (node.targets if isinstance(node, ast.Assign) else [node.target]):
+                    if isinstance(t, ast.Attribute) and not self.ignored_target(t):
                         res = True
         self.effectful[key] = res
         return res
+
+    def ignored_target(self, t):
+        d = dotted(t)
+        return d is not None and any(p.search(d) for p in self.ignore_targets)
+
+    def tainted_value(self, value, ctx):
+        for node in ast.walk(value):
+            if isinstance(node, ast.Call):
+                d = dotted(node.func)
+                if d is not None and any(p.search(d) for p in self.ignore_calls):
+                    return True
+            if isinstance(node, ast.Name) and node.id in ctx.setdefault("tainted", set()):
+                return True
+        return False
 
     def resolve_call(self, cls, call):
         """(class, method, object path) when the call goes to a method in this core"""
@@ -171,8 +200,8 @@ class Core:
         if obj is None:
             return None
         d = dotted(call.func)
-        if d is not None and (d + "()" in self.observers or d in self.effects or d in self.pure
-                              or any(p.search(d) for p in self.ignore)):
+        if d is not None and (d + "()" in self.observers or d in self.effects or d in self.pure or d in self.opaque
+                              or d in self.oracles or any(p.search(d) for p in self.ignore)):
             return None
         if obj == "self":
             tcls = cls
@@ -205,6 +234,8 @@ class Core:
                 return f"(Py.V.str {lean_str(v)})"
             raise Untranslatable(f"{where()}: constant {v!r}")
         if isinstance(e, ast.Name):
+            if e.id in ctx.get("tainted", ()):
+                raise Untranslatable(f"{where()}: use of {e.id}, a value the core's configuration leaves out")
             if e.id in locs:
                 return "v_" + e.id
             if e.id in self.consts:
@@ -258,6 +289,7 @@ class Core:
             if c is not None:
                 return self.const(c, where())
             if d.startswith("self."):
+                self.read.add(prefix + d[4:])
                 return f"(env {lean_str(prefix + d[4:])})"
             raise Untranslatable(f"{where()}: attribute {d}")
         if isinstance(e, ast.Call):
@@ -272,12 +304,16 @@ class Core:
                 return "(" + " ".join([self.pure[d]] + [self.expr(a, ctx) for a in e.args]) + ")"
             if not e.args and not e.keywords and d + "()" in self.observers and d.startswith("self"):
                 return f"(env {lean_str(prefix + d[4:] + '()')})"
+            if d in self.oracles:
+                if not self.heap or e.keywords:
+                    raise Untranslatable(f"{where()}: oracle call {d}")
+                return f"(Py.H.oracle ext {lean_str(self.oracles[d])} [{', '.join(self.expr(a, ctx) for a in e.args)}] env)"
             tgt = self.resolve_call(cls, e)
             if tgt is not None:
                 tcls, tm, obj = tgt
                 if self.is_effectful(tcls, tm):
                     raise Untranslatable(f"{where()}: call of the effectful {tcls}.{tm} inside an expression")
-                return f"(Py.val ({self.call_text(tgt, e, ctx)} []))"
+                return f"({self.P}val ({self.call_text(tgt, e, ctx)} []))"
             raise Untranslatable(f"{where()}: call of {d}")
         raise Untranslatable(f"{where()}: expression {type(e).__name__}")
 
@@ -339,20 +375,21 @@ class Core:
                 else:
                     raise Untranslatable(f"{tcls}.{tm}: record argument {name} is not a record parameter")
             else:
-                if not isinstance(node, (ast.Name, ast.Constant)):
+                if not isinstance(node, (ast.Name, ast.Constant)) and not (isinstance(node, ast.Attribute) and (dotted(node) or "").startswith("self.")):
                     # Python evaluates arguments before the call; a name or a constant cannot raise there
                     raise Untranslatable(f"{tcls}.{tm}: argument {name} of a translated call is not a name or a constant")
                 args.append(self.expr(node, ctx))
         new_prefix = ctx["prefix"] + obj[4:]
         self.translate(tcls, tm, new_prefix)
-        return " ".join([self.lean_name(tcls, tm, new_prefix), "env"] + args)
+        return " ".join([self.lean_name(tcls, tm, new_prefix), self.XE] + args)
 
     # ---------------------------------------------------------------- statements
     def assigned(self, stmts):
         out = []
         for s in stmts:
             for node in ast.walk(s):
-                if isinstance(node, ast.Name) and isinstance(node.ctx, ast.Store) and node.id not in out:
+                if isinstance(node, ast.Name) and isinstance(node.ctx, ast.Store) and node.id not in out \
+                        and not any(p.search(node.id) for p in self.ignore_targets):
                     out.append(node.id)
         return out
 
@@ -360,6 +397,8 @@ class Core:
         """Lean term for the statement list; `k` is the text to fall through to"""
         pad = "  " * ind
         cls, m = ctx["cls"], ctx["m"]
+        P, EV = self.P, self.EV
+        benv = " env" if self.heap else ""   # binder of the environment in a continuation
         if not stmts:
             return pad + k
         s, rest = stmts[0], stmts[1:]
@@ -373,12 +412,12 @@ class Core:
             return self.block(rest, k, ctx, ind)
         if isinstance(s, ast.Return):
             if s.value is None:
-                return pad + "Py.ret Py.V.none effs"
+                return pad + f"{P}ret Py.V.none{EV} effs"
             if isinstance(s.value, ast.Call):
                 tgt = self.resolve_call(cls, s.value)
                 if tgt is not None:
                     return pad + f"{self.call_text(tgt, s.value, ctx)} effs"
-            return pad + f"Py.ret {self.expr(s.value, ctx)} effs"
+            return pad + f"{P}ret {self.expr(s.value, ctx)}{EV} effs"
         if isinstance(s, ast.Raise):
             exc = s.exc
             name = None
@@ -388,24 +427,45 @@ class Core:
                 name = dotted(exc)
             if name is None:
                 raise Untranslatable(f"{where()}: raise without a class")
-            return pad + f"Py.Res.raised {lean_str(name.split('.')[-1])} effs"
-        if isinstance(s, ast.Assign):
-            if len(s.targets) != 1:
-                raise Untranslatable(f"{where()}: chained assignment")
-            t = s.targets[0]
+            return pad + f"{P}Res.raised {lean_str(name.split('.')[-1])}{EV} effs"
+        if isinstance(s, (ast.Assign, ast.AugAssign)):
+            if isinstance(s, ast.AugAssign):
+                if not isinstance(s.op, (ast.Add, ast.Sub)):
+                    raise Untranslatable(f"{where()}: augmented assignment {ast.dump(s.op)}")
+                t = s.target
+                value = ast.BinOp(left=ast.copy_location(ast.Attribute(value=t.value, attr=t.attr, ctx=ast.Load()), t)
+                                  if isinstance(t, ast.Attribute) else ast.copy_location(ast.Name(id=t.id, ctx=ast.Load()), t),
+                                  op=s.op, right=s.value)
+                ast.copy_location(value, s)
+            else:
+                if len(s.targets) != 1:
+                    raise Untranslatable(f"{where()}: chained assignment")
+                t = s.targets[0]
+                value = s.value
+            if isinstance(t, (ast.Name, ast.Attribute)) and (self.ignored_target(t) or self.tainted_value(value, ctx)):
+                if isinstance(t, ast.Name):
+                    ctx.setdefault("tainted", set()).add(t.id)
+                return self.block(rest, k, ctx, ind)       # bookkeeping the core's configuration leaves out (timers)
             if isinstance(t, ast.Name):
-                if isinstance(s.value, ast.Call):
-                    tgt = self.resolve_call(cls, s.value)
-                    if tgt is not None:
-                        return (pad + f"Py.bind ({self.call_text(tgt, s.value, ctx)} effs) fun v_{t.id} effs =>\n"
+                if isinstance(value, ast.Call):
+                    d = dotted(value.func)
+                    if d in self.opaque:
+                        if not self.heap or value.keywords:
+                            raise Untranslatable(f"{where()}: opaque call {d}")
+                        args = ", ".join(self.expr(a, ctx) for a in value.args)
+                        return (pad + f"Py.H.call ext {lean_str(self.opaque[d])} [{args}] env effs fun v_{t.id} env effs =>\n"
                                 + self.block(rest, k, ctx, ind))
-                return pad + f"Py.letv {self.expr(s.value, ctx)} effs fun v_{t.id} =>\n" + self.block(rest, k, ctx, ind)
-            if isinstance(t, ast.Tuple) and isinstance(s.value, ast.Tuple) and len(t.elts) == len(s.value.elts) \
+                    tgt = self.resolve_call(cls, value)
+                    if tgt is not None:
+                        return (pad + f"{P}bind ({self.call_text(tgt, value, ctx)} effs) fun v_{t.id}{benv} effs =>\n"
+                                + self.block(rest, k, ctx, ind))
+                return pad + f"{P}letv {self.expr(value, ctx)}{EV} effs fun v_{t.id} =>\n" + self.block(rest, k, ctx, ind)
+            if isinstance(t, ast.Tuple) and isinstance(value, ast.Tuple) and len(t.elts) == len(value.elts) \
                     and all(isinstance(x, ast.Name) for x in t.elts):
                 tmp = [f"t_{i}" for i in range(len(t.elts))]
                 out = ""
-                for name, v in zip(tmp, s.value.elts):
-                    out += pad + f"Py.letv {self.expr(v, ctx)} effs fun {name} =>\n"
+                for name, v in zip(tmp, value.elts):
+                    out += pad + f"{P}letv {self.expr(v, ctx)}{EV} effs fun {name} =>\n"
                 for name, x in zip(tmp, t.elts):
                     out += pad + f"let v_{x.id} := {name}\n"
                 return out + self.block(rest, k, ctx, ind)
@@ -414,7 +474,11 @@ class Core:
                 if d is None or not d.startswith("self."):
                     raise Untranslatable(f"{where()}: assignment to {ast.unparse(t)}")
                 full = ctx["prefix"] + d[4:]
-                return (pad + f"Py.eff {lean_str('set ' + full)} [{self.expr(s.value, ctx)}] effs fun effs =>\n"
+                if self.heap:
+                    return (pad + f"Py.H.setattr {lean_str(full)} {self.expr(value, ctx)} env effs fun env effs =>\n"
+                            + self.block(rest, k, ctx, ind))
+                self.written.add(full)
+                return (pad + f"Py.eff {lean_str('set ' + full)} [{self.expr(value, ctx)}] effs fun effs =>\n"
                         + self.block(rest, k, ctx, ind))
             raise Untranslatable(f"{where()}: assignment target {type(t).__name__}")
         if isinstance(s, ast.Expr) and isinstance(s.value, ast.Call):
@@ -425,14 +489,20 @@ class Core:
             if d in self.effects:
                 spec = self.effects[d]
                 if isinstance(spec, tuple):  # (tag, False): the arguments are not part of the record
-                    return (pad + f"Py.eff {lean_str(spec[0])} [] effs fun effs =>\n" + self.block(rest, k, ctx, ind))
+                    return (pad + f"{P}eff {lean_str(spec[0])} []{EV} effs fun effs =>\n" + self.block(rest, k, ctx, ind))
                 args = [self.expr(a, ctx) for a in call.args] + [self.expr(kw.value, ctx) for kw in call.keywords]
                 tag = spec + "".join(f" {kw.arg}=" for kw in call.keywords)
-                return (pad + f"Py.eff {lean_str(tag)} [{', '.join(args)}] effs fun effs =>\n"
+                return (pad + f"{P}eff {lean_str(tag)} [{', '.join(args)}]{EV} effs fun effs =>\n"
+                        + self.block(rest, k, ctx, ind))
+            if d in self.opaque:
+                if not self.heap or call.keywords:
+                    raise Untranslatable(f"{where()}: opaque call {d}")
+                args = ", ".join(self.expr(a, ctx) for a in call.args)
+                return (pad + f"Py.H.call ext {lean_str(self.opaque[d])} [{args}] env effs fun _ env effs =>\n"
                         + self.block(rest, k, ctx, ind))
             tgt = self.resolve_call(cls, call)
             if tgt is not None:
-                return (pad + f"Py.bind ({self.call_text(tgt, call, ctx)} effs) fun _ effs =>\n"
+                return (pad + f"{P}bind ({self.call_text(tgt, call, ctx)} effs) fun _{benv} effs =>\n"
                         + self.block(rest, k, ctx, ind))
             raise Untranslatable(f"{where()}: call of {d} is neither ignored, an effect, nor a translated method")
         if isinstance(s, ast.If):
@@ -440,18 +510,19 @@ class Core:
             if not rest:
                 a = self.block(s.body, k, ctx, ind + 1)
                 b = self.block(s.orelse, k, ctx, ind + 1)
-                return pad + f"Py.cond {test} effs (\n{a}) (\n{b})"
+                return pad + f"{P}cond {test}{EV} effs (\n{a}) (\n{b})"
             # join point over the variables the branches assign
             vs = self.assigned(s.body + s.orelse)
             self.jp += 1
             jp = f"jp{self.jp}"
             params = " ".join(f"(v_{v} : Py.V)" for v in vs)
-            call = " ".join([jp] + [f"v_{v}" for v in vs] + ["effs"])
+            henv = " (env : Py.Env)" if self.heap else ""
+            call = " ".join([jp] + [f"v_{v}" for v in vs] + (["env"] if self.heap else []) + ["effs"])
             body = self.block(rest, k, ctx, ind + 1)
             a = self.block(s.body, call, ctx, ind + 1)
             b = self.block(s.orelse, call, ctx, ind + 1)
-            return (pad + f"let {jp} := fun {params} (effs : List Py.Eff) =>\n{body}\n"
-                    + pad + f"Py.cond {test} effs (\n{a}) (\n{b})")
+            return (pad + f"let {jp} := fun {params}{henv} (effs : List Py.Eff) =>\n{body}\n"
+                    + pad + f"{P}cond {test}{EV} effs (\n{a}) (\n{b})")
         raise Untranslatable(f"{where()}: statement {type(s).__name__}")
 
     # ---------------------------------------------------------------- functions
@@ -469,12 +540,12 @@ class Core:
             if v not in locs:
                 locs.append(v)
         ctx = {"cls": cls, "m": m, "prefix": prefix, "locals": set(locs), "records": recs}
-        body = self.block(list(f.body), "Py.ret Py.V.none effs", ctx, 1)
+        body = self.block(list(f.body), f"{self.P}ret Py.V.none{self.EV} effs", ctx, 1)
         sig = " ".join(f"(r_{p} : Py.Env)" if p in recs else f"(v_{p} : Py.V)" for p in params)
         unbound = "".join(f"  let v_{v} : Py.V := Py.V.exc \"UnboundLocalError\"\n" for v in locs if v not in params)
         src = self.srcfile[(cls, m)]
         text = (f"/-- `{cls}.{m}` ({src}:{f.lineno}), `self` = `{prefix}` -/\n"
-                f"def {name} (env : Py.Env) {sig} (effs : List Py.Eff) : Py.Res :=\n{unbound}{body}\n")
+                f"@[py_core] def {name} ({'ext : Py.Ext) (' if self.heap else ''}env : Py.Env) {sig} (effs : List Py.Eff) : {self.P}Res :=\n{unbound}{body}\n")
         self.emitted[name] = text
         self.order.append(name)
         return name
@@ -483,7 +554,10 @@ class Core:
         self.load()
         for cls, m in roots:
             self.translate(cls, m)
-        out = [f"import Model.Py\n/-! GENERATED by tools/py2lean.py from /repo's working tree — do not edit.\n{self.doc}\n-/\n"
+        if not self.heap and self.written & self.read:
+            # an attribute the core writes is also read: the plain environment is read-only, the read would not see the write
+            raise Untranslatable(f"attribute(s) {sorted(self.written & self.read)} are written and read: the core needs heap mode")
+        out = [f"import Model.Py\nimport Proofs.PyAttr\n/-! GENERATED by tools/py2lean.py from /repo's working tree — do not edit.\n{self.doc}\n-/\n"
                f"set_option linter.unusedVariables false\nnamespace Generated.{self.name}\n"]
         for n in self.order:
             out.append(self.emitted[n])
@@ -492,5 +566,5 @@ class Core:
 
 
 def stub(name, reason):
-    return (f"import Model.Py\n/-! GENERATED by tools/py2lean.py — TRANSLATION FAILED, no definitions.\n"
+    return (f"import Model.Py\nimport Proofs.PyAttr\n/-! GENERATED by tools/py2lean.py — TRANSLATION FAILED, no definitions.\n"
             f"{reason}\n-/\nnamespace Generated.{name}\nend Generated.{name}\n")
